@@ -85,6 +85,7 @@ import (
 
 	"honnef.co/go/tools/analysis/lint"
 	"honnef.co/go/tools/go/types/typeutil"
+	"honnef.co/go/tools/internal/verifhook"
 	"honnef.co/go/tools/internal/xtools-internal/versions"
 
 	"golang.org/x/exp/typeparams"
@@ -3195,12 +3196,14 @@ func (b *builder) iterate() {
 		b.buildFunction(fn)
 	}
 
+	verifhook.Point("ir.iterate.done")
 	b.buildshared.markDone()
 	b.buildshared.wait()
 }
 
 // buildFunction builds IR code for the body of function fn.  Idempotent.
 func (b *builder) buildFunction(fn *Function) {
+	verifhook.Point("ir.buildFunction")
 	if fn.build != nil {
 		assert(fn.parent == nil, "anonymous functions should not be built by buildFunction()")
 
@@ -3483,6 +3486,7 @@ func (p *Package) build() {
 		defer logStack("build %s", p)()
 	}
 
+	verifhook.Point("ir.package.build")
 	b := builder{fns: p.created}
 	b.iterate()
 
